@@ -1,5 +1,8 @@
 #!/bin/sh
-# run the thorough tier of every check, 3 at a time; logs in /tmp/exp/thorough/
-mkdir -p /tmp/exp/thorough
-cd /verif
-printf '%s\n' C01 C02 C03 C04 C05 C06 C07 C08 C09 C10 C11 C12 C13 C14 C15 C16 C17 C18 C19 C20 | xargs -P 3 -I{} sh -c 'VERIF_TIER=thorough VERIF_SEED=5 ./check {} --tier thorough > /tmp/exp/thorough/{}.log 2>&1; echo "{} rc=$? $(tail -1 /tmp/exp/thorough/{}.log)" >> /tmp/exp/thorough/summary.txt'
+# tools/run_thorough.sh [PAR]: the thorough tier of every check on the unchanged tree, PAR at a time (default 3);
+# summary on stdout. Meant for `vp run --timeout 8h -- tools/run_thorough.sh` (builds the Lean tree of the snapshot first).
+cd "$(dirname "$0")/.."
+PAR=${1:-3}
+[ -d lean/.lake/build/bin ] || ./setup.sh > /tmp/exp-setup-th.log 2>&1
+D=/tmp/exp/thorough-$$; mkdir -p $D
+printf '%s\n' C01 C02 C03 C04 C05 C06 C07 C08 C09 C10 C11 C12 C13 C14 C15 C16 C17 C18 C19 C20 | xargs -P $PAR -I{} sh -c "s=\$(date +%s); VERIF_SEED=5 ./check {} --tier thorough > $D/{}.log 2>&1; rc=\$?; e=\$(date +%s); echo \"{} rc=\$rc \$((e-s))s \$(grep -h 'VIOLATION\|INFRA\|obligations=' $D/{}.log | head -3 | cut -c1-300)\""
